@@ -7,7 +7,7 @@ Case lines (harness/h_C10.cpp):
 The sentences are generated constructively from (value, spelling) choices, so the
 expected values (the denotation) are known without looking at any recogniser.
 """
-import struct
+import struct, re
 from props import C10 as P10
 
 HARNESS = ["h_C10.cpp"]
@@ -277,6 +277,9 @@ def rich_array(rng, depth=0):
                 prev = (k2, v); last_ty = ord(k2)
                 continue
             b = rng.randint(60, 80) if k2 == "c" else rng.randint(-30, 30)
+            if k2 != base and prev is not None and prev[0] == k2:
+                # a second element of the other type: its reprint can need the explicit form (below)
+                continue
             if prev is not None and prev[0] == k2 and prev[1] != b:
                 if k2 != base:
                     # in an array of another type the reprint would need the explicit form
@@ -375,7 +378,7 @@ def gen(rng, tier, dist):
                 # (doc/Guide.adoc): keep such a neighbour away unless it is meant
                 # (after an array the scanner takes the array's last element: finding
                 # range-after-array, generated on purpose now and then)
-                tt0 = text.rstrip(" \n\t")
+                tt0 = re.sub(r"(^|\s)%[^\n]*", " ", text).rstrip(" \n\t")
                 if " ... " in t and not t.startswith("[") and tt0.endswith("]") and tt0[:-1].rstrip(" \n\t").endswith("..."):
                     # a range after an array that ends in an open range: the checker's search for a
                     # previous ellipsis ends inside the array (class range-after-array)
@@ -441,7 +444,7 @@ def classify(case, impl, failure):
     """range-after-array: a range "b ... c" whose left neighbour is an array ending in a value of b's type"""
     import re
     text = bytes.fromhex(case.split(" ")[1]).decode("latin-1")
-    text = re.sub(r"%[^\n]*", " ", text)
+    text = re.sub(r"(^|\s)%[^\n]*", " ", text)
     if re.search(r"[0-9a-zA-Z'\"]h?(\s*\])+\s+[-+0-9'][^\s]*\s+\.\.\.", text):
         return "range-after-array"
     if failure.startswith("reprint"):
